@@ -1,5 +1,6 @@
 import XV.Driver.Util
 import XV.Driver.Utf8
+import XV.Driver.Regex
 open XV.Driver
 
 def main (args : List String) : IO UInt32 := do
@@ -7,5 +8,6 @@ def main (args : List String) : IO UInt32 := do
   let stdout ← IO.getStdout
   match args with
   | ["utf8"] => lineLoop stdin stdout XV.Driver.Utf8.handle; return 0
+  | ["regex"] => lineLoop stdin stdout XV.Driver.Regex.handle; return 0
   | ["utf8spec"] => lineLoop stdin stdout XV.Driver.Utf8.handleSpec; return 0
   | _ => IO.eprintln "usage: xvdriver <area>"; return 2
